@@ -37,13 +37,24 @@ import (
 //	                          the session (VerifSessDump, event driven)
 //	  F:<id>:<kind>:<x1>:<x2> every plugin registered with this id answers with this script from now on
 //	  N:<i>:<name>            NewProxy (stcp) on slot i
-//	  P:<i>                   Ping on slot i
+//	  P:<i>[:<key>]           Ping on slot i carrying this privilege key (Timestamp 1); the result says whether
+//	                          the session's lastPing moved (Service.VerifAuthSessions before / after the Pong)
+//	  Z:<sec>                 (before the first L) transport.heartbeatTimeout of this server (default 90)
+//	  A                       (before the first L) auth.additionalScopes = [HeartBeats]: VerifyPing checks the key
+//	  W:<ds>                  real time passes: the history keeps an absolute schedule (start + the sum of the W
+//	                          steps so far, in 1/10 s); sleeps until the schedule is reached, then reports the
+//	                          sessions the server dropped by itself (heartbeat timeout) and that no earlier step
+//	                          saw closed.  If the steps since the previous W overran the schedule by more than
+//	                          250 ms the whole history is void (`infra late`)
 //	  C:<k>                   a user connection (visitor) for the proxy registered by step k (an N step);
 //	                          when the server asks for a work connection one is offered (NewWorkConn)
 //
 // result: H=<r,r,…> | <w;w;…>   one r and one w per step
 //
-//	r: L: ok:<hexrunid> | no | closed      N: ok:<hexname> | no | closed | dead      P: ok | no | closed | dead
+//	r: L: ok:<hexrunid> | no | closed      N: ok:<hexname> | no | closed | dead
+//	   P: ok+ | ok= | no+ | no= | closed | dead    (+: lastPing moved, =: it did not)
+//	   any step: …!<i>.<j>  the lastPing of these slots moved in this step although it was not a Ping of theirs
+//	   W: - | g<i>+<j>…  (the slots dropped)     Z, A: -
 //	   C: - (visitor not admitted / no such proxy) | no/- | ok/ok | ok/no | ok/eof      X, F: -
 //	   (dead: the harness holds no usable control connection for that slot; closed: the server hung up)
 //	w: the requests the plugin server received during that step, `+`-joined, in arrival order (steps are
@@ -59,31 +70,44 @@ type histSlot struct {
 	// leave out user connections for proxies of a replaced session; N / P on it are still sent: the
 	// server must have hung up)
 	replaced bool
+	gone     bool // the server hung up (seen by a step, or reported by a W step)
 }
 
-func histStartFrps() (*server.Service, string, func(), string) {
-	l, err := net.Listen("tcp", "127.0.0.1:0")
-	if err != nil {
-		return nil, "", nil, "infra listen"
+func histStartFrps(hbTimeout int64, hbScope bool) (*server.Service, string, func(), string) {
+	bad := ""
+	for try := 0; try < 3; try++ { // the port found free may be taken again before the service binds it
+		l, err := net.Listen("tcp", "127.0.0.1:0")
+		if err != nil {
+			bad = "infra listen"
+			continue
+		}
+		port := l.Addr().(*net.TCPAddr).Port
+		l.Close()
+		cfg := &v1.ServerConfig{}
+		cfg.Complete()
+		cfg.BindAddr = "127.0.0.1"
+		cfg.ProxyBindAddr = "127.0.0.1"
+		cfg.BindPort = port
+		cfg.Transport.TCPMux = lo.ToPtr(false)
+		cfg.UserConnTimeout = 1
+		if hbTimeout > 0 {
+			cfg.Transport.HeartbeatTimeout = hbTimeout
+		}
+		if hbScope {
+			cfg.Auth.AdditionalScopes = []v1.AuthScope{v1.AuthScopeHeartBeats}
+		}
+		cfg.Transport.TLS.CertFile, cfg.Transport.TLS.KeyFile = siteCert()
+		cfg.HTTPPlugins = append([]v1.HTTPPluginOptions{}, pst.httpRegs...)
+		svr, err := server.NewService(cfg)
+		if err != nil {
+			bad = "infra newservice"
+			continue
+		}
+		ctx, cancel := context.WithCancel(context.Background())
+		go svr.Run(ctx)
+		return svr, fmt.Sprintf("127.0.0.1:%d", port), func() { cancel(); svr.Close() }, ""
 	}
-	port := l.Addr().(*net.TCPAddr).Port
-	l.Close()
-	cfg := &v1.ServerConfig{}
-	cfg.Complete()
-	cfg.BindAddr = "127.0.0.1"
-	cfg.ProxyBindAddr = "127.0.0.1"
-	cfg.BindPort = port
-	cfg.Transport.TCPMux = lo.ToPtr(false)
-	cfg.UserConnTimeout = 1
-	cfg.Transport.TLS.CertFile, cfg.Transport.TLS.KeyFile = siteCert()
-	cfg.HTTPPlugins = append([]v1.HTTPPluginOptions{}, pst.httpRegs...)
-	svr, err := server.NewService(cfg)
-	if err != nil {
-		return nil, "", nil, "infra newservice"
-	}
-	ctx, cancel := context.WithCancel(context.Background())
-	go svr.Run(ctx)
-	return svr, fmt.Sprintf("127.0.0.1:%d", port), func() { cancel(); svr.Close() }, ""
+	return nil, "", nil, bad
 }
 
 func histRun(script string) string {
@@ -102,11 +126,49 @@ func histRun(script string) string {
 		pst.mu.Unlock()
 	}()
 
-	svr, addr, stop, bad := histStartFrps()
+	steps := strings.Split(script, ",")
+	// the server's configuration: Z / A steps, only ahead of everything else
+	hbTimeout, hbScope, head := int64(0), false, true
+	for _, st := range steps {
+		f := strings.Split(st, ":")
+		switch {
+		case f[0] == "Z" && len(f) == 2 && head:
+			hbTimeout = int64(atoi(f[1]))
+		case f[0] == "A" && len(f) == 1 && head:
+			hbScope = true
+		case f[0] == "Z" || f[0] == "A":
+			return "bad-op"
+		default:
+			head = false
+		}
+	}
+	svr, addr, stop, bad := histStartFrps(hbTimeout, hbScope)
 	if bad != "" {
 		return bad
 	}
 	defer stop()
+	// ctl.lastPing per slot as it was after the previous step (Service.VerifAuthSessions); after every step:
+	// whose heartbeat clock moved?  (only a Ping may move it, and only that of its own session)
+	lp := map[int]int64{}
+	moved := func(slots []*histSlot) map[int]bool {
+		rows := map[string]int64{}
+		for _, r := range svr.VerifAuthSessions() {
+			rows[r.RunID] = r.LastPing
+		}
+		mv := map[int]bool{}
+		for i, s := range slots {
+			cur, ok := rows[s.rid]
+			if !s.usable || s.replaced || s.gone || !ok {
+				delete(lp, i)
+				continue
+			}
+			if prev, had := lp[i]; had && prev != cur {
+				mv[i] = true
+			}
+			lp[i] = cur
+		}
+		return mv
+	}
 	dial := func() net.Conn {
 		for i := 0; i < 50; i++ {
 			c, err := net.DialTimeout("tcp", addr, time.Second)
@@ -170,12 +232,34 @@ func histRun(script string) string {
 			}
 		}
 	}
+	// the server hung up on a slot the harness took for alive (heartbeat timeout): the message just written
+	// may still be on its way through the plugin chain; wait until the plugin server has been quiet for
+	// 40 ms (at most 300 ms) so that these requests are booked on this step
+	hungUp := func(s *histSlot) {
+		if !s.gone && !s.replaced {
+			n, quiet := -1, 0
+			for k := 0; k < 60 && quiet < 8; k++ {
+				time.Sleep(5 * time.Millisecond)
+				pst.mu.Lock()
+				m := len(pst.wire)
+				pst.mu.Unlock()
+				if m == n {
+					quiet++
+				} else {
+					n, quiet = m, 0
+				}
+			}
+		}
+		s.gone = true
+	}
 	ts := time.Now().Unix()
+	t0, sched, timed := time.Now(), time.Duration(0), false
+	late := func() bool { return timed && time.Since(t0) > sched+250*time.Millisecond }
 
-	steps := strings.Split(script, ",")
 	for si, st := range steps {
 		f := strings.Split(st, ":")
 		out := "-"
+		pinged := -1 // the slot whose Ping was answered with a Pong in this step
 		switch f[0] {
 		case "L":
 			if len(f) != 3 {
@@ -262,6 +346,30 @@ func histRun(script string) string {
 				}
 			}
 			pst.mu.Unlock()
+		case "Z", "A":
+		case "W":
+			if len(f) != 2 {
+				return "bad-op"
+			}
+			timed = true
+			if late() {
+				return "infra late"
+			}
+			sched += time.Duration(atoi(f[1])) * 100 * time.Millisecond
+			if d := time.Until(t0.Add(sched)); d > 0 {
+				time.Sleep(d)
+			}
+			ids, _ := svr.VerifSessDump()
+			gone := []string{}
+			for i, s := range slots {
+				if s.usable && !s.replaced && !s.gone && ids[s.rid] != "h"+strconv.Itoa(i) {
+					s.gone = true
+					gone = append(gone, strconv.Itoa(i))
+				}
+			}
+			if len(gone) > 0 {
+				out = "g" + strings.Join(gone, "+")
+			}
 		case "N", "P":
 			i := atoi(f[1])
 			if i < 0 || i >= len(slots) || !slots[i].usable {
@@ -280,13 +388,21 @@ func histRun(script string) string {
 					}
 				} else {
 					out = "closed"
+					hungUp(s)
 				}
 			} else {
-				_ = msg.WriteMsg(s.crw, &msg.Ping{})
+				key := ""
+				if len(f) > 2 {
+					key = unhx(f[2])
+				}
+				_ = msg.WriteMsg(s.crw, &msg.Ping{PrivilegeKey: key, Timestamp: 1})
 				if r, ok := next(s).(*msg.Pong); ok {
+					// handlePing stores lastPing before it sends the Pong: `+` / `=` is appended below
 					out = lo.Ternary(r.Error == "", "ok", "no")
+					pinged = i
 				} else {
 					out = "closed"
+					hungUp(s)
 				}
 			}
 		case "C":
@@ -392,8 +508,25 @@ func histRun(script string) string {
 		default:
 			return "bad-op"
 		}
+		mv := moved(slots)
+		if pinged >= 0 {
+			out += lo.Ternary(mv[pinged], "+", "=")
+			delete(mv, pinged)
+		}
+		if len(mv) > 0 { // heartbeat clocks that moved without a Ping of that session
+			ids := []string{}
+			for i := range slots {
+				if mv[i] {
+					ids = append(ids, strconv.Itoa(i))
+				}
+			}
+			out += "!" + strings.Join(ids, ".")
+		}
 		outs = append(outs, out)
 		wires = append(wires, takeWire())
+	}
+	if late() {
+		return "infra late"
 	}
 	// the end of the history: every session ends, every proxy that was registered has stopped by then and
 	// its close notification goes to every plugin registered for CloseProxy (judged by `sess`, not here):
@@ -437,7 +570,17 @@ var (
 	histUsers = []string{"", "u", "alice", "né", "bob"}
 	histNames = []string{"p", "web", "p+1", "né", "q"}
 	histRids  = []string{"r1", "r2", "zz"}
+	// privilege keys of the scripted Pings: what the Ping plugins see as member `a` (content dependent
+	// behaviours look at its ending); the first one is what VerifyPing asks for when the HeartBeats scope is on
+	histKeys = []string{util.GetAuthKey("", 1), "", "k1", "k2", "zz", "p"}
 )
+
+func histKey(rng *rand.Rand, scope bool) string {
+	if scope && rng.Intn(4) != 0 {
+		return histKeys[0]
+	}
+	return pick(rng, histKeys)
+}
 
 func plugGenHist(rng *rand.Rand, maxID int) string {
 	steps := []string{}
@@ -475,6 +618,10 @@ func plugGenHist(rng *rand.Rand, maxID int) string {
 		}
 		steps = append(steps, fmt.Sprintf("F:%d:%s:%s:%s", id, kind, hx(x1), hx(x2)))
 	}
+	scope := rng.Intn(7) == 0
+	if scope {
+		steps = append(steps, "A")
+	}
 	if rng.Intn(10) < 6 {
 		// start from plugins that all consent (accept or rewrite); the history then flips some of them
 		for id := 1; id <= maxID; id++ {
@@ -497,12 +644,104 @@ func plugGenHist(rng *rand.Rand, maxID int) string {
 			nSteps = append(nSteps, len(steps))
 			steps = append(steps, "N:"+strconv.Itoa(rng.Intn(nL))+":"+hx(pick(rng, histNames)))
 		case r < 68:
-			steps = append(steps, "P:"+strconv.Itoa(rng.Intn(nL)))
+			steps = append(steps, "P:"+strconv.Itoa(rng.Intn(nL))+":"+hx(histKey(rng, scope)))
 		case r < 90:
 			steps = append(steps, "C:"+strconv.Itoa(nSteps[rng.Intn(len(nSteps))]))
 		default:
 			steps = append(steps, "X:"+strconv.Itoa(rng.Intn(nL)))
 		}
+	}
+	return strings.Join(steps, ",")
+}
+
+// ---- generator: heartbeat histories (real time)
+//
+// a server with a heartbeat timeout of 1 or 2 s, 2…4 sessions that ping in rounds (every 0.3…0.5 s, each with
+// a key of its own), while the Ping plugins change their mind at some round: reject everything / the keys
+// with some ending only, fail (HTTP 500, reset, garbage, empty object) for everything / for some keys only,
+// and possibly consent again later; some sessions fall silent, some are closed by the peer, now and then a
+// NewProxy in between.  The history goes on (the refused sessions keep pinging) until every session whose
+// Pings are no longer counted is past timeout + one worker period + slack, so that who is still there is
+// decided: the model (PluginSite.step with .tick / .hbCheck) says who must be alive, who must be gone.
+func plugGenBeat(rng *rand.Rand, pingIDs []int) string {
+	hb := 1 + rng.Intn(2) // seconds
+	steps := []string{"Z:" + strconv.Itoa(hb)}
+	scope := rng.Intn(4) == 0
+	if scope {
+		steps = append(steps, "A")
+	}
+	flip := func(kinds []string, sufs []string) {
+		if len(pingIDs) == 0 {
+			return
+		}
+		kind := pick(rng, kinds)
+		x1, x2 := "", ""
+		switch kind {
+		case "happ", "haccC":
+			x1 = pick(rng, plugTags)
+		case "hrej", "hrejU":
+			x1 = pick(rng, plugReasons)
+		case "hrejsuf":
+			x1, x2 = pick(rng, sufs), pick(rng, plugReasons)
+		case "herrsuf":
+			x1 = pick(rng, sufs)
+		case "hmal":
+			x1 = pick(rng, plugMalBody)
+		}
+		steps = append(steps, fmt.Sprintf("F:%d:%s:%s:%s", pick(rng, pingIDs), kind, hx(x1), hx(x2)))
+	}
+	for _, id := range pingIDs { // everybody consents to begin with
+		steps = append(steps, fmt.Sprintf("F:%d:hacc:x:x", id))
+	}
+	n := 2 + rng.Intn(3)
+	keys, until := make([]string, n), make([]int, n)
+	sufs := []string{""}
+	for i := 0; i < n; i++ {
+		steps = append(steps, "L:e:"+hx(pick(rng, histUsers)))
+		keys[i] = histKey(rng, scope)
+		if k := keys[i]; k != "" {
+			sufs = append(sufs, k[len(k)-1:])
+		}
+		until[i] = 1 << 30 // pings to the end
+		if rng.Intn(5) == 0 {
+			until[i] = 2 + rng.Intn(12) // falls silent at this time (1/10 s)
+		}
+	}
+	refusing := []string{"hrej", "hrejU", "hrejsuf", "hrejsuf", "hrejsuf", "herrsuf", "herrsuf", "hs500", "hreset", "hmal", "hempty"}
+	disturbAt := 3 + rng.Intn(10) // the first change of mind
+	end := disturbAt + hb*10 + 10 + 5 + 4 + rng.Intn(4)
+	disturbed, nProxy := false, 0
+	for now := 0; now < end; {
+		if !disturbed && now >= disturbAt {
+			disturbed = true
+			flip(refusing, sufs)
+		} else if disturbed && rng.Intn(8) == 0 {
+			flip(append([]string{"hacc", "hacc", "happ"}, refusing...), sufs) // another change, maybe back
+		}
+		for i := 0; i < n; i++ {
+			if now < until[i] && rng.Intn(12) != 0 {
+				steps = append(steps, "P:"+strconv.Itoa(i)+":"+hx(keys[i]))
+			}
+		}
+		switch rng.Intn(14) {
+		case 0:
+			nProxy++
+			steps = append(steps, "N:"+strconv.Itoa(rng.Intn(n))+":"+hx(pick(rng, histNames)))
+		case 1:
+			if rng.Intn(3) == 0 {
+				steps = append(steps, "X:"+strconv.Itoa(rng.Intn(n)))
+			}
+		}
+		d := 3 + rng.Intn(3)
+		if d > hb*10-6 {
+			d = hb*10 - 6
+		}
+		steps = append(steps, "W:"+strconv.Itoa(d))
+		now += d
+	}
+	// who is there at the end: one more Ping each
+	for i := 0; i < n; i++ {
+		steps = append(steps, "P:"+strconv.Itoa(i)+":"+hx(keys[i]))
 	}
 	return strings.Join(steps, ",")
 }
